@@ -96,6 +96,9 @@ def units(tier):
                 U.must_fail_twin(r, "vacuity.must_fail_twin", lambda: unit_shift(rel, q, which, twin=True))
             return r
         us.append(("C11.%s.advective_shift" % which, g))
+    from props import c11_mix as MX
+    from props.common import wrap as _wrap
+    _wrap(us, "C11.init_mix.partition_of_unity_and_stability_bookkeeping", MX.unit_init_mix)
     return us
 
 
